@@ -186,14 +186,21 @@ def five_tuple(c, m=2, n=2):
     _check_operator(c, s.M, s.b_tild, s.target, n)
 
 
-def ugla(c, iface, m=2, n=3, bc='zero'):
+def ugla(c, iface, m=2, n=3, bc='zero', noise='scalar'):
     """UGLA step against the documented local Gaussian approximation at the current state x_k:
     prior precision (1/b) D^T W(x_k) D with W = diag(((D x_k)^2 + beta)^(-1/2)), prior location mu"""
     A = c.mat('A', m, n); data = c.vec('y', m); nv = c.real('noise_v', pos=True)
     loc = c.vec('loc', n); scale = c.real('scale', pos=True); beta = c.real('beta', pos=True)
     prior = LMRF(loc, scale, bc_type=bc, geometry=cuqi.geometry.Continuous1D(n))
     if c.sym: shims.symbolize_operators(prior)
-    lik = Gaussian(LinearModel(A), nv, geometry=m).to_likelihood(data)
+    if noise == 'scalar':
+        dd = Gaussian(LinearModel(A), nv, geometry=m); Pn = (1 / nv) * np.eye(m)
+    else:
+        Gn = c.lower('gn', m); Cn = Gn @ Gn.T                          # correlated noise: the stored square root is not symmetric
+        dd = Gaussian(LinearModel(A), cov=Cn, geometry=m)
+        det = Cn[0, 0] * Cn[1, 1] - Cn[0, 1] * Cn[1, 0]
+        Pn = np.array([[Cn[1, 1], -Cn[0, 1]], [-Cn[1, 0], Cn[0, 0]]], dtype=Cn.dtype) / det
+    lik = dd.to_likelihood(data)
     target = Posterior(lik, prior)
     xk = c.vec('xk', n)
     StubCGLS.calls.clear()
@@ -216,7 +223,7 @@ def ugla(c, iface, m=2, n=3, bc='zero'):
     w = 1 / np.sqrt(np.asarray(Dx) ** 2 + beta)
     x = c.vec('x', n)
     # stationarity of the documented local approximation: A^T (y - A x)/noise_v - (1/scale) D^T W D (x - loc)
-    spec_grad = A.T @ ((data - A @ x) / nv) - (1 / scale) * (D.T @ (w * (D @ (x - loc))))
+    spec_grad = A.T @ (Pn @ (data - A @ x)) - (1 / scale) * (D.T @ (w * (D @ (x - loc))))
     if c.sym:
         call = StubCGLS.calls[0]; M = call.args['A']
         c.eq('perturbed_right_hand_side_is_b_plus_noise', call.args['b'], np.asarray(b) + e)
@@ -227,9 +234,11 @@ def ugla(c, iface, m=2, n=3, bc='zero'):
         c.eq('normal_equations_are_stationarity_of_the_documented_local_approximation', M(np.asarray(b) - np.asarray(M(x, 1)), 2), spec_grad)
     else:
         # native: the draw solves (M^T M) x = M^T (b + e) for the documented quadratic:  spec_grad(new) + M^T e == 0 where M^T e = A^T e1/sqrt(nv) + sqrt(1/scale) D^T sqrt(W) e2
-        Mt_e = A.T @ (e[:m] / np.sqrt(nv)) + np.sqrt(1 / scale) * (D.T @ (np.sqrt(w) * e[m:]))
+        Ln = dd.sqrtprec; Ln = Ln.toarray() if hasattr(Ln, 'toarray') else np.asarray(Ln, dtype=float)
+        if Ln.ndim < 2: Ln = np.diag(np.ravel(Ln) * np.ones(m))
+        Mt_e = A.T @ (Ln.T @ e[:m]) + np.sqrt(1 / scale) * (D.T @ (np.sqrt(w) * e[m:]))
         xx = np.asarray(new, dtype=float)
-        g_at_new = A.T @ ((data - A @ xx) / nv) - (1 / scale) * (D.T @ (w * (D @ (xx - loc))))
+        g_at_new = A.T @ (np.asarray(Pn, dtype=float) @ (data - A @ xx)) - (1 / scale) * (D.T @ (w * (D @ (xx - loc))))
         c.eq('draw_is_exact_draw_of_the_documented_local_gaussian', g_at_new + Mt_e, np.zeros(n), tol=1e-5)
 
 
@@ -252,6 +261,8 @@ def jobs(tier):
                          'Pbox', fl, extra=_extra, rtol=1e-4, timeout=600))
         um = 'cuqi.experimental.mcmc._laplace_approximation' if iface == 'exp' else 'cuqi.sampler._laplace_approximation'
         for bc in ('zero', 'neumann'):
+            J.append(Job(f'{tag}.UGLA:local_gaussian_approximation:bc={bc}:correlated_noise', lambda c, i=iface, bc=bc: ugla(c, i, 2, 3, bc, 'dense'), 'Pbox',
+                         [f'{um}:UGLA._precompute', f'{um}:UGLA.step'] if iface == 'exp' else [f'{um}:UGLA._sample'], extra=_extra, rtol=1e-5, timeout=600))
             J.append(Job(f'{tag}.UGLA:local_gaussian_approximation:bc={bc}', lambda c, i=iface, bc=bc: ugla(c, i, 2, 3, bc), 'Pbox',
                          [f'{um}:UGLA._precompute', f'{um}:UGLA.step'] if iface == 'exp' else [f'{um}:UGLA._sample'], extra=_extra, rtol=1e-5, timeout=600))
     for iface, tag in (('exp', 'experimental'), ('leg', 'legacy')):
